@@ -23,18 +23,41 @@ import (
 
 // Hooks counts the named scheduling points the relay passes (build tag verif).
 type Hooks struct {
-	mu  sync.Mutex
-	cnt map[string]int
+	mu    sync.Mutex
+	cnt   map[string]int
+	holds map[string]chan struct{}
 }
 
 func InstallHooks() *Hooks {
-	h := &Hooks{cnt: map[string]int{}}
+	h := &Hooks{cnt: map[string]int{}, holds: map[string]chan struct{}{}}
 	verifhook.SetController(func(name, key string) {
 		h.mu.Lock()
 		h.cnt[name+"|"+key]++
+		ch := h.holds[name+"|"+key]
 		h.mu.Unlock()
+		if ch != nil {
+			<-ch // the harness keeps this caller here until it releases it
+		}
 	})
 	return h
+}
+
+// Hold makes the next caller of point (name,key) wait there until the returned function is called
+// (only for points that are passed by a request's own goroutine, never by the hub's).
+func (h *Hooks) Hold(name, key string) (release func()) {
+	ch := make(chan struct{})
+	h.mu.Lock()
+	h.holds[name+"|"+key] = ch
+	h.mu.Unlock()
+	var once sync.Once
+	return func() {
+		once.Do(func() {
+			h.mu.Lock()
+			delete(h.holds, name+"|"+key)
+			h.mu.Unlock()
+			close(ch)
+		})
+	}
 }
 
 func (h *Hooks) Count(name, key string) int {
@@ -329,6 +352,23 @@ func (k *Kit) Leave(p *Peer) {
 	case <-p.readerDone:
 	case <-time.After(k.Slack):
 	}
+}
+
+// LeaveWithReason ends the connection the polite way with a close frame that carries a reason text
+// (RFC 6455: code 1000 and up to 123 bytes), then closes the socket and waits like Leave.
+func (k *Kit) LeaveWithReason(p *Peer, reason []byte) {
+	if p.Conn == nil {
+		return
+	}
+	if len(reason) > 123 {
+		reason = reason[:123]
+	}
+	p.mu.Lock()
+	p.leftByUs = true
+	p.mu.Unlock()
+	p.Conn.WriteControl(websocket.CloseMessage, websocket.FormatCloseMessage(websocket.CloseNormalClosure, string(reason)), time.Now().Add(2*time.Second))
+	time.Sleep(10 * time.Millisecond)
+	k.Leave(p)
 }
 
 // Abort kills the TCP connection without a websocket close (a peer that dies, possibly while it is
